@@ -36,7 +36,7 @@ counters! {
     r_calls, r_chunk, r_eintr, r_hard, r_eof, r_reenter, nested_ops_ok, nested_ops_wrong,
     reads_total, reads_ok, reads_err, reads_under_terminal_fault, reads_fault_after_end,
     dl_reader, dl_bufreader, dl_str, dl_value, dl_destr, dl_destring, dl_deborrowed,
-    dl_escaped_str, dl_escaped_reader,
+    dl_escaped_str, dl_escaped_reader, dl_in_place, deliveries_not_applicable, records_not_serialisable_in_shape,
     r1_durability_checked, r3_torn_rejected,
     // rare corners
     probe_fault_on_first_write, probe_fault_on_last_write, probe_fault_in_multidigit_fragment,
